@@ -177,6 +177,11 @@ func c06(c *q.Ctx) {
 		c.ArgIs(f, "leveldb::DB.Write", 1, "p0.b", 1, "the engine batch that Put/Delete filled")
 		c.Gate(f, "leveldb::DB.Write", q.ToSuccess(), q.Opt{K1Only: true})
 	}
+	// ... and nobody else hands an engine batch to the engine: a batch that is written in pieces (spilled early,
+	// flushed from Put) is not atomic, whatever its callers assume
+	c.WhoCalls("leveldb::DB.Write", map[string]string{"lib/storage/kvdb/leveldb::(*ldbBatch).Write": "the one engine write of a batch"}, "an engine batch reaches the engine only through ldbBatch.Write")
+	// Reset empties the engine batch: only the explicit Reset of the adapter may do that (not a partial flush)
+	c.WhoCalls("leveldb::Batch.Reset", map[string]string{"lib/storage/kvdb/leveldb::(*ldbBatch).Reset": "explicit reset by the owner of the batch"}, "staged operations are dropped only by an explicit Reset")
 	for _, m := range []string{"Put", "Delete"} {
 		if f := c.Fn("lib/storage/kvdb/leveldb::(*ldbBatch)." + m); f != nil {
 			c.Effect(f, q.Eff{Spec: "leveldb::Batch." + m, Arg: 0, Glob: "p1", Why: "batch operations only fill the engine batch", Rule: "K7"})
